@@ -52,7 +52,7 @@ func Run(c *core.Ctx) {
 		r8(c, s)
 	}
 	Automaton(c, "R5.automaton", false)
-	c.Expect("R1.fifo", 8)
+	c.Expect("R1.fifo", 7)
 	c.Expect("R2.enqueue", 4)
 	c.Expect("R3.sender", 14)
 	c.Expect("R4.barrier", 2)
